@@ -2127,6 +2127,12 @@ impl Lexer<'_> {
             '%' => {
                 match self.cursor.peek_next() {
                     '*' => {
+                        // A macro string before the comment may have set the checkpoint,
+                        // and the one after it will set its own - we allow only one at a time.
+                        // There is no point to revert back to before the comment anyway,
+                        // it will be lexed the same way whether this is arg name or value
+                        self.clear_checkpoint();
+
                         self.start_token();
                         self.lex_macro_comment();
                     }
